@@ -392,3 +392,34 @@ M("C12", "astar_hyp: count forgets separator", PL, """            char *wstr = d
             if (wstr != NULL)
                 len += strlen(wstr);""", "TWIN.P6-hyp-passes")
 M("C12", "benign: key operands swapped", PL, "        total_score = newpath->score + newpath->node->info.rem_score;", "        total_score = newpath->node->info.rem_score + newpath->score;", kind="benign")
+
+FM = "src/fsg_model.c"
+# ---- C13 ----------------------------------------------------------------------
+M("C13", "fsg: revert %g", FM, '"%s %d %d %g %s\\n", FSG_MODEL_TRANSITION_DECL', '"%s %d %d %f %s\\n", FSG_MODEL_TRANSITION_DECL', "TABLE.W4-scaling")
+M("C13", "fsg: writer swaps from/to", FM, "                    tl->from_state, tl->to_state,\n                    logmath_exp", "                    tl->to_state, tl->from_state,\n                    logmath_exp", "TABLE.W2-transition-line")
+M("C13", "fsg: writer header order", FM, """    fprintf(fp, "%s %d\\n", FSG_MODEL_START_STATE_DECL, fsg->start_state);
+    fprintf(fp, "%s %d\\n", FSG_MODEL_FINAL_STATE_DECL, fsg->final_state);""", """    fprintf(fp, "%s %d\\n", FSG_MODEL_FINAL_STATE_DECL, fsg->final_state);
+    fprintf(fp, "%s %d\\n", FSG_MODEL_START_STATE_DECL, fsg->start_state);""", "TABLE.W1-keywords")
+M("C13", "fsg: writer integer division (seed C13-2)", FM, "(int32)(tl->logs2prob / fsg->lw)),", "tl->logs2prob / (int32)fsg->lw),", "TABLE.W4-scaling")
+M("C13", "fsg: writer multiplies lw", FM, "(int32)(tl->logs2prob / fsg->lw)),", "(int32)(tl->logs2prob * fsg->lw)),", "TABLE.W4-scaling")
+M("C13", "fsg: reader swaps i j", FM, "                fsg_model_trans_add(fsg, i, j, tprob, wid);\n                ++n_trans;", "                fsg_model_trans_add(fsg, j, i, tprob, wid);\n                ++n_trans;", "TABLE.W2-transition-line")
+M("C13", "fsg: reader to-state unchecked", FM, "            if (endptr == word || j < 0 || j >= fsg->n_state) {", "            if (endptr == word || j < 0 || j > fsg->n_state) {", "TABLE.W2-transition-line")
+M("C13", "fsg: dup arc keeps lower", FM, "            if (link->logs2prob < logp)\n                link->logs2prob = logp;\n            return;", "            if (link->logs2prob > logp)\n                link->logs2prob = logp;\n            return;", "ORDER.W3-merge")
+M("C13", "fsg: null dup returns 0 unchanged", FM, "            link->logs2prob = logp;\n            return 0;\n        } else\n            return -1;", "            link->logs2prob = logp;\n            return 0;\n        } else\n            return 0;", "ORDER.W3-merge")
+M("C13", "fsg: closure flag only on new (seed C13-1)", FM, """                if (k >= 0) {
+                    updated = TRUE;
+                    if (k > 0) {
+                        nulls = glist_add_ptr(nulls, (void *)fsg_model_null_trans(fsg, tl1->from_state, tl2->to_state));
+                        n++;
+                    }
+                }""", """                if (k > 0) {
+                    updated = TRUE;
+                    nulls = glist_add_ptr(nulls, (void *)fsg_model_null_trans(fsg, tl1->from_state, tl2->to_state));
+                    n++;
+                }""", "PROV.W5-transforms")
+M("C13", "fsg: closure composes from tl1 to tl1", FM, "                                             tl1->from_state,\n                                             tl2->to_state,\n                                             tl1->logs2prob + tl2->logs2prob);", "                                             tl1->from_state,\n                                             tl2->to_state,\n                                             tl2->logs2prob);", "PROV.W5-transforms")
+M("C13", "fsg: closure iterates arcs of from_state", FM, "            for (itor = hash_table_iter(fsg->trans[tl1->to_state].null_trans);", "            for (itor = hash_table_iter(fsg->trans[tl1->from_state].null_trans);", "PROV.W5-transforms")
+M("C13", "fsg: silence skips state 0", FM, "        for (src = 0; src < fsg->n_state; src++) {\n            fsg_model_trans_add(fsg, src, src, logsilp, silwid);", "        for (src = 0; src < fsg->n_state - 1; src++) {\n            fsg_model_trans_add(fsg, src, src, logsilp, silwid);", "PROV.W5-transforms")
+M("C13", "fsg: alt copies to from_state", FM, "                    link->to_state = fl->to_state;\n                    link->logs2prob = fl->logs2prob; /* FIXME!!!??? */", "                    link->to_state = fl->from_state;\n                    link->logs2prob = fl->logs2prob; /* FIXME!!!??? */", "PROV.W5-transforms")
+M("C13", "fsg: null self-loop accepted", FM, "    if (from == to)\n        return -1;\n\n    if (fsg->trans[from].null_trans == NULL)", "    if (fsg->trans[from].null_trans == NULL)", "ORDER.W3-merge")
+M("C13", "fsg benign: %.8g", FM, '"%s %d %d %g %s\\n", FSG_MODEL_TRANSITION_DECL', '"%s %d %d %.8g %s\\n", FSG_MODEL_TRANSITION_DECL', kind="benign")
